@@ -75,6 +75,7 @@ func (check) Plan(tier string, seed int64) []harness.Batch {
 	for i := 0; i < np; i++ {
 		c := genCase(r, uint32(r.Intn(1<<len(flagBits))))
 		c.Trigger = "panic"
+		c.QueueSz = 0
 		c.PanicAt = r.Intn(6)
 		cj, _ := json.Marshal(c)
 		s, _ := json.Marshal(spec{Kind: "panic", Case: cj})
@@ -326,7 +327,14 @@ func runCase(w *harness.W, c caseT) {
 		burst(3)
 		// the input goroutine recovers, closes Vaxis and panics again: this
 		// process dies; the parent judges journal.Last
-		time.Sleep(10 * time.Second)
+		for end := time.After(10 * time.Second); ; {
+			select {
+			case <-vx.Events():
+				continue
+			case <-end:
+			}
+			break
+		}
 		goto hung
 	}
 	timeout = time.After(6 * time.Second)
@@ -380,7 +388,8 @@ hung:
 			key := "shutdown-never-returns:" + c.Trigger
 			w.ViolationStack(key, fmt.Sprintf("shutdown (%s) did not complete: a goroutine is parked in WaitClose while the parser is parked in emit (nobody drains the parser) - the terminal was not restored", c.Trigger), c, "Close/Suspend still blocked after 20s", "returns with the terminal restored", clipDump(dump))
 		} else {
-			w.Inconclusive("shutdown-timeout-without-corroboration")
+			w.Inconclusive("shutdown-timeout-without-corroboration:" + c.Trigger)
+			os.WriteFile(fmt.Sprintf("/tmp/c04-incon-%d.txt", os.Getpid()), []byte(string(cj)+"\n"+dump), 0o644)
 		}
 	}
 }
